@@ -14,10 +14,35 @@ theorem validate_no_overflow (m : FileMetadata) (dataLimit : Int) (hm : FileI64 
     Gen.validate m dataLimit = validFile m dataLimit :=
   validate_bridge_aux m dataLimit hm hd
 
+/-- witness metadata: every framing field at an int64 extreme (a hostile footer) -/
+private def nv_hostile : FileMetadata :=
+  { BlockFilterRegionOffset := 9223372036854775807, BlockFilterRegionSize := 9223372036854775807,
+    DataBlocks := [{ RowDataOffset := -9223372036854775808, RowDataSize := 9223372036854775807,
+                     BloomFilterOffset := 9223372036854775807, BloomFilterSize := 9223372036854775807 }] }
+
+/-- non-vacuity: the premises of `validate_no_overflow` hold for the metadata of a written three-block file and for a footer with every field at an int64 extreme; on the latter both sides are `false` -/
+example : (FileI64 (layout [⟨10, 3⟩, ⟨0, 0⟩, ⟨7, 5⟩]) ∧ InI64 30) ∧
+    (FileI64 nv_hostile ∧ InI64 9223372036854775807) ∧
+    Gen.validate nv_hostile 9223372036854775807 = false ∧ validFile nv_hostile 9223372036854775807 = false := by
+  refine ⟨⟨?_, by decide⟩, ⟨?_, by decide⟩, by decide, by decide⟩
+  · unfold FileI64 BlockI64; decide
+  · unfold FileI64 BlockI64; decide
+
 theorem validateFilterSection_no_overflow (b : DataBlockMetadata) (ro re : Int) (hb : BlockI64 b)
     (h1 : InI64 ro) (h2 : InI64 re) (h3 : re - ro ≤ maxInt64) :
     Gen.validateFilterSection b ro re = validSection b ro re :=
   validSection_bridge_aux b ro re hb h1 h2 h3
+
+/-- non-vacuity: the premises of `validateFilterSection_no_overflow` hold for an ordinary section inside its region and for a section with offset and size at `maxInt64` in the widest admissible region `[0, maxInt64]`; the latter is rejected by both sides -/
+example : (BlockI64 { BloomFilterOffset := 12, BloomFilterSize := 5 } ∧ InI64 10 ∧ InI64 20 ∧ (20 : Int) - 10 ≤ maxInt64) ∧
+    (BlockI64 { BloomFilterOffset := 9223372036854775807, BloomFilterSize := 9223372036854775807 } ∧
+      InI64 0 ∧ InI64 9223372036854775807 ∧ (9223372036854775807 : Int) - 0 ≤ maxInt64) ∧
+    Gen.validateFilterSection { BloomFilterOffset := 12, BloomFilterSize := 5 } 10 20 = true ∧
+    Gen.validateFilterSection { BloomFilterOffset := 9223372036854775807, BloomFilterSize := 9223372036854775807 }
+      0 9223372036854775807 = false := by
+  refine ⟨⟨?_, by decide, by decide, by decide⟩, ⟨?_, by decide, by decide, by decide⟩, by decide, by decide⟩
+  · unfold BlockI64; decide
+  · unfold BlockI64; decide
 
 /-- **Acceptance implies in-bounds**, for all values of the framing fields: the region lies in the
     data area, every block's row data lies before the region, every filter section lies inside the
@@ -27,12 +52,22 @@ theorem C19_validate_ok_in_bounds (m : FileMetadata) (dataLimit : Int) (hm : Fil
   rw [validate_no_overflow m dataLimit hm hd] at h
   exact valid_in_bounds_aux m dataLimit h
 
+/-- non-vacuity: the premises of `C19_validate_ok_in_bounds` hold for the metadata of a written three-block file (one block without a filter section) with 15 bytes to spare; the theorem applies -/
+example : FileI64 (layout [⟨10, 3⟩, ⟨0, 0⟩, ⟨7, 5⟩]) ∧ InI64 40 ∧
+    Gen.validate (layout [⟨10, 3⟩, ⟨0, 0⟩, ⟨7, 5⟩]) 40 = true ∧ InBounds (layout [⟨10, 3⟩, ⟨0, 0⟩, ⟨7, 5⟩]) 40 := by
+  have hm : FileI64 (layout [⟨10, 3⟩, ⟨0, 0⟩, ⟨7, 5⟩]) := by unfold FileI64 BlockI64; decide
+  exact ⟨hm, by decide, by decide, C19_validate_ok_in_bounds _ 40 hm (by decide) (by decide)⟩
+
 /-- A section served from the chunk in hand is sliced inside the chunk buffer. -/
 theorem held_section_in_buf (b : DataBlockMetadata) (chunkStart bufLen lo hi : Int)
     (hlen : 0 ≤ bufLen) (hsz : 0 ≤ b.BloomFilterSize)
     (h : heldSection b chunkStart bufLen = some (lo, hi)) :
     0 ≤ lo ∧ lo ≤ hi ∧ hi ≤ bufLen ∧ hi - lo = b.BloomFilterSize :=
   held_section_in_buf_aux b chunkStart bufLen lo hi hlen hsz h
+
+/-- non-vacuity: the premises of `held_section_in_buf` hold for a 16-byte section at offset 120 served from a 64-byte chunk read at 100; the slice is `[20, 36)` -/
+example : (0 : Int) ≤ 64 ∧ (0 : Int) ≤ ({ BloomFilterOffset := 120, BloomFilterSize := 16 } : DataBlockMetadata).BloomFilterSize ∧
+    heldSection { BloomFilterOffset := 120, BloomFilterSize := 16 } 100 64 = some (20, 36) := by decide
 
 /-- A chunk read for a validated section starts at that section, covers it, stays inside the
     region, and is no larger than the chunk target unless the section alone is. -/
@@ -46,11 +81,24 @@ theorem chunk_within_region (target rs re : Int) (b : DataBlockMetadata) (follow
      (chunkFor target rs re b following).2 - (chunkFor target rs re b following).1 = b.BloomFilterSize) :=
   chunk_within_region_aux target rs re b following ht hv hs
 
+/-- non-vacuity: the premises of `chunk_within_region` hold for a valid 10-byte section followed by an empty section, an adjacent 8-byte section (absorbed) and a distant one (past the 32-byte target); the chunk is `[110, 128)` -/
+example : (0 : Int) ≤ 32 ∧ validSection { BloomFilterOffset := 110, BloomFilterSize := 10 } 100 200 = true ∧
+    (0 : Int) < ({ BloomFilterOffset := 110, BloomFilterSize := 10 } : DataBlockMetadata).BloomFilterSize ∧
+    chunkFor 32 100 200 { BloomFilterOffset := 110, BloomFilterSize := 10 }
+      [{ BloomFilterOffset := 120, BloomFilterSize := 0 }, { BloomFilterOffset := 120, BloomFilterSize := 8 },
+       { BloomFilterOffset := 150, BloomFilterSize := 20 }] = (110, 128) := by decide
+
 /-- The row scanner never consumes more than the section holds: a corrupt length prefix is an
     error, not an oversized read. -/
 theorem scanner_in_bounds (fuel : Nat) (bs : Bytes) (rs : List Bytes)
     (h : scanRows fuel bs = .ok rs) : (rs.map (·.length)).sum + 4 * rs.length ≤ bs.length :=
   scan_in_bounds_aux fuel bs rs h
+
+/-- non-vacuity: the premise of `scanner_in_bounds` holds for the section written for three rows (one empty); the theorem applies: 4 payload bytes + 3 prefixes ≤ 16 bytes -/
+example : scanRows 10 (encodeRows [[1, 2, 3], [], [9]]) = .ok [[1, 2, 3], [], [9]] ∧
+    (([[1, 2, 3], [], [9]] : List Bytes).map (·.length)).sum + 4 * ([[1, 2, 3], [], [9]] : List Bytes).length ≤
+      (encodeRows [[1, 2, 3], [], [9]]).length :=
+  ⟨rfl, scanner_in_bounds 10 _ _ rfl⟩
 
 /-- Non-vacuity: an accepted non-trivial file. -/
 example : Gen.validate (layout [⟨10, 3⟩, ⟨0, 0⟩, ⟨7, 5⟩]) 30 = true := by decide
